@@ -5,6 +5,7 @@ open Jomini.Props.C01
 #print axioms C01_quote_blocks
 #print axioms C01_skipws
 #print axioms C01_bom
+#print axioms C01_parse_total
 #print axioms C01_step_blank_partial
 #print axioms C01_step_blank_key_open
 #print axioms C01_step_blank_parseopen_open
